@@ -87,14 +87,14 @@ Qed.
 
 (* C03 / C04: lexicographic optimality in list (= position) order over all feasible matchings *)
 Theorem run_lex_optimal_all : forall M o solve out,
-  wf M = true -> admissible M o = true -> milp_ok M solve -> stages_nonempty M o ->
+  wf M = true -> admissible M o = true -> milp_ok M solve ->
   run M o solve = Ok out -> out_status out = Optimal ->
   LexOpt (Feas (o_pc o) (o_stab o) M) (map (prim_objective_spec M) (all_prims M o))
          (matching_of M (val_fun (out_vals out))).
 Proof.
-  intros M o solve out Hwf Hadm Hok Hne Hrun Hst. destruct (base_constrs_total M o Hadm) as [base Hb].
+  intros M o solve out Hwf Hadm Hok Hrun Hst. destruct (base_constrs_total M o Hadm) as [base Hb].
   exact (run_lex_optimal M o base Hwf Hadm Hb (base_sound_all M o base Hwf Hadm Hb)
-                         (base_complete_all M o base Hwf Hadm Hb) solve out Hok Hne Hrun Hst).
+                         (base_complete_all M o base Hwf Hadm Hb) solve out Hok Hrun Hst).
 Qed.
 
 (* a later criterion never worsens an earlier one: the final matching still attains the optimum of the first
